@@ -20,7 +20,7 @@ import (
 func TestMain(m *testing.M) {
 	kit.Main(m, "C12", "fault_enumeration",
 		"an interposed memcall implementation backed by ordinary slices keeps a shadow page table (per region: mapped, locked, protection, ever-held-secret, content when unlocked / freed) and fails the primitive calls whose index is planned. "+
-			"Programs = creation (New / CreateRandom with an injectable random source) ; WithBytes ; nested WithBytesFunc ; Reader ; Close ; then follow-up reads, Close and Close again. The fault-free primitive sequence is recorded and a failure is injected at EVERY index and EVERY pair of indices (exhaustive), for protectedmemory (all primitives + random source) and memguard (Protect, the only primitive it routes through the interface); rapid only varies sizes and the follow-up. "+
+			"Programs = creation (New / CreateRandom with an injectable random source) ; WithBytes ; nested WithBytesFunc ; Reader ; Close ; Close issued while a reader is inside its callback (parked until the reader's possibly failing release) ; then follow-up reads, Close and Close again. The fault-free primitive sequence is recorded and a failure is injected at EVERY index and EVERY pair of indices (exhaustive), for protectedmemory (all primitives + random source) and memguard (Protect, the only primitive it routes through the interface); rapid only varies sizes and the follow-up. "+
 			"Oracle: a creation in which a primitive failed returns an error and no secret and leaves no region mapped, locked or readable unless the failed primitive was the very Free that would have released it; secret bytes are zero when their region is unlocked or freed; "+
 			"a failed open-for-read returns an error, does not run the callback and leaves the reader count unchanged (later reads work, Close does not hang); a failed Close returns an error and a retried Close succeeds and releases the region; InUseCounter / AllocCounter move only for successful creations and successful closes; nothing panics or hangs. "+
 			"One evaluation = one execution with one fault plan. Non-trivial = the fault fired and at least one primitive call followed it; enumerated plans are distinct by construction",
@@ -271,11 +271,96 @@ func run(p program, sh *shadow) string {
 		}
 		return ""
 	}
+	// closeDuring: Close is called while a reader is inside its callback, so it parks until the
+	// last reader leaves; the reader's release (and the Close that follows) may hit planned faults.
+	closeDuring := func() string {
+		if closedOK || sec.IsClosed() {
+			return closeOnce()
+		}
+		before := sh.ncalls()
+		inUse := securememory.InUseCounter.Count()
+		closeErr := make(chan error, 1)
+		ran, parked, started := false, false, false
+		rerr := sec.WithBytes(func(b []byte) error {
+			ran = true
+			// a nested read does no primitive call; it is refused once Close has marked the secret and parked
+			if _, e := sec.WithBytesFunc(func([]byte) ([]byte, error) { return nil, nil }); e != nil {
+				return nil // an earlier failed Close already marked it: nothing to park behind
+			}
+			started = true
+			go func() { closeErr <- sec.Close() }()
+			for i := 0; i < 2000000 && !parked; i++ {
+				if _, e := sec.WithBytesFunc(func([]byte) ([]byte, error) { return nil, nil }); e != nil {
+					parked = true
+				} else {
+					runtime.Gosched()
+				}
+			}
+			return nil
+		})
+		if !ran {
+			// open failed (fault) or the secret refuses reads after an earlier failed Close
+			if sh.ncalls() > before && sh.fired[before] && rerr == nil {
+				return "making the pages readable failed but no error was returned"
+			}
+			return ""
+		}
+		if !started {
+			return ""
+		}
+		if !parked {
+			return "Close called during a read neither finished nor started refusing new readers"
+		}
+		var cerr error
+		select {
+		case cerr = <-closeErr:
+		case <-time.After(3 * time.Second):
+			return fmt.Sprintf("Close, parked behind a reader, did not finish within 3s after the last reader left (the reader's release returned %v)", rerr)
+		}
+		releaseFault := sh.ncalls() > before+1 && sh.fired[before+1]
+		closeFault := false
+		for i := before + 2; i < sh.ncalls(); i++ {
+			closeFault = closeFault || sh.fired[i]
+		}
+		if releaseFault && rerr == nil {
+			return "the last reader's release failed but the read returned no error"
+		}
+		if !releaseFault && rerr != nil {
+			return fmt.Sprintf("the read failed without an injected fault: %v", rerr)
+		}
+		if closeFault {
+			if cerr == nil {
+				return "a memory primitive failed during the parked Close but no error was returned"
+			}
+			if d := securememory.InUseCounter.Count() - inUse; d != 0 {
+				return fmt.Sprintf("InUseCounter moved by %d for a failed Close", d)
+			}
+			return ""
+		}
+		if cerr != nil {
+			return fmt.Sprintf("the parked Close failed without an injected fault of its own: %v", cerr)
+		}
+		closedOK = true
+		if !sec.IsClosed() {
+			return "Close succeeded but IsClosed reports false"
+		}
+		if d := securememory.InUseCounter.Count() - inUse; d != -1 {
+			return fmt.Sprintf("InUseCounter moved by %d for a successful Close", d)
+		}
+		if p.kind == pm {
+			if l := sh.leftovers(); len(l) > 0 {
+				return fmt.Sprintf("Close succeeded but region %d is still mapped (locked=%v)", l[0].id, l[0].locked)
+			}
+		}
+		return ""
+	}
 	for _, step := range p.followUp {
 		var msg string
 		switch step {
 		case "Close":
 			msg = closeOnce()
+		case "CloseDuringRead":
+			msg = closeDuring()
 		case "Nested":
 			msg = read("WithBytesFunc", true)
 		default:
@@ -344,6 +429,8 @@ var followUps = [][]string{
 	{"Nested", "Reader", "Close", "WithBytes"},
 	{"Close", "WithBytesFunc", "Close"},
 	{"WithBytesFunc", "Nested", "WithBytes", "Close"},
+	{"CloseDuringRead", "WithBytes", "Close"},
+	{"WithBytes", "Close", "CloseDuringRead", "Close"},
 }
 
 func TestEnumerateFaults(t *testing.T) {
@@ -385,7 +472,7 @@ func TestRandomPrograms(t *testing.T) {
 			kind:     rapid.SampledFrom([]factoryKind{pm, pm, mg}).Draw(t, "kind"),
 			create:   rapid.SampledFrom([]string{"New", "CreateRandom"}).Draw(t, "create"),
 			size:     rapid.SampledFrom([]int{1, 2, 31, 32, 33, 4095, 4096, 4097, 8192, 12289}).Draw(t, "size"),
-			followUp: rapid.SliceOfN(rapid.SampledFrom([]string{"WithBytes", "WithBytesFunc", "Nested", "Reader", "Close"}), 0, 6).Draw(t, "followUp"),
+			followUp: rapid.SliceOfN(rapid.SampledFrom([]string{"WithBytes", "WithBytesFunc", "Nested", "Reader", "Close", "CloseDuringRead"}), 0, 6).Draw(t, "followUp"),
 		}
 		if p.kind == pm && p.create == "CreateRandom" {
 			p.randFail = rapid.IntRange(0, 3).Draw(t, "randFail") == 0
